@@ -40,6 +40,14 @@ import Reduino.GenOb.Ops
   arithmetic and comparisons (the theorems' statements are textually unchanged; the store relation of `expr_preserved` says `Ty.holds`).
   The operator tokens `Render` prints are tied to the transpiler's `_BIN`/`_UN`/`_CMP` tables by the
   obligations of `GenOb/Ops.lean`.
+  Helper functions (W6): `Stmt.call` — `f(args)` / `x = f(args)` at statement level; the statement carries the definition it calls
+  (`Prog.helpers`, `Prog.resolved`: the listed definition of that name, earlier helpers only, no recursion).  Python: arguments in the
+  caller's store, a fresh frame with the parameters, the body, the value of the one trailing `return`; C++: arguments converted to the
+  parameter types, the body under parameters + locals (a local declared by its first top-level assignment), `return` converted to the
+  return type.  `tr` emits ONE definition per helper (all-int parameters for a helper never called with a target: `Prog.sigsOk`;
+  prototypes only with more than one definition).  `C01_partial` and `C01_partial_promotion` cover procedures and value-returning helpers
+  whose bodies name parameters and locals only (statements unchanged: `InF`/`InF2`, `tr`/`tr2` and both semantics gained the
+  constructor); module-level names inside a body are outside (`nameError` of the model).
 -/
 namespace Reduino.Props.C01
 open Reduino.Lang
